@@ -65,6 +65,11 @@ CHECKS = {
                      "truncation point inside a record) is extended by six hostile tails, opened, extended by a commit and reopened.",
                 note="tails: 64 zero bytes, 37 pseudo-random bytes, length 0x7ffffff0, header announcing more bytes than follow, "
                      "complete record with wrong checksum, bit flip in the last byte"),
+    "C29": dict(ref="5 C29", tech="TLA+ trace validation (SchedTrace.TBackup) of backups interleaved with writer operations at schedule points",
+                text="The backup thread is parked before the page-file copy, between the two copies and after the log copy while commits, "
+                     "compactions and close-time log rewrites run; the completed backup is restored and opened; TLC requires the restored "
+                     "dump to equal the quiescent dump at the start of the backup or after one of the writer operations.",
+                note="known finding KF-24 (checkpoint between the copies); quiescent backups and commits in any gap hold"),
     "C30": dict(ref="5 C30", tech="TLA+ trace validation (CypherTrace.BulkCheck + CypherSem reference) of bulk-loaded and transaction-loaded databases",
                 text="Seeded node / relationship sets are loaded once by the bulk loader and once through transactions; the driver echoes the "
                      "input, TLC builds the expected graph from it and requires both dumps to equal it (up to node identity, both traversal "
@@ -147,7 +152,7 @@ CHECKS = {
 }
 
 # properties whose check has been run green on the unchanged tree
-ENABLED = ["C01", "C02", "C03", "C04", "C05", "C06", "C07", "C08", "C09", "C10", "C11", "C12", "C13", "C14", "C15", "C17", "C19", "C20", "C21", "C22", "C23", "C24", "C26", "C27", "C28", "C30", "C33"]
+ENABLED = ["C01", "C02", "C03", "C04", "C05", "C06", "C07", "C08", "C09", "C10", "C11", "C12", "C13", "C14", "C15", "C17", "C19", "C20", "C21", "C22", "C23", "C24", "C26", "C27", "C28", "C29", "C30", "C33"]
 
 NOT_APPLICABLE = {
     "C16": "quantifies over arbitrary byte strings and resource exhaustion; no state machine to specify, a fuzzer's job (DESIGN.md 6)",
